@@ -121,6 +121,25 @@ def hygiene_scan():
     return hits
 
 
+def theorems_of(text):
+    """fully qualified names of the `theorem`s of a Lean file (comments already stripped), following nested namespaces"""
+    out, stack = [], []
+    for line in text.split("\n"):
+        m = re.match(r"^namespace\s+(\S+)", line)
+        if m:
+            stack.append(m.group(1))
+            continue
+        m = re.match(r"^end\s+(\S+)", line)
+        if m and stack and stack[-1] == m.group(1):
+            stack.pop()
+            continue
+        m = re.match(r"^theorem\s+(\S+)", line)
+        if m:
+            nm = m.group(1)
+            out.append(nm[7:] if nm.startswith("_root_.") else ".".join(stack + [nm]))
+    return out
+
+
 def static_check(pid, tier, deps_artefacts=None, props_module=None, props_path=None, extra_props=()):
     """translator + lake build of the property's theorem file(s) + axiom audit; extra_props = [(module, path under lean/)]:
     further theorem-only files of the property (theorems about translated code that sit above the first file)"""
@@ -134,17 +153,13 @@ def static_check(pid, tier, deps_artefacts=None, props_module=None, props_path=N
     pf = os.path.join(LEAN_DIR, props_path) if props_path else props_file(pid)
     with open(pf, encoding="utf-8") as f:
         text = strip_lean_comments(f.read())
-    ns = re.search(r"^namespace\s+(\S+)", text, flags=re.M)
-    prefix = (ns.group(1) + ".") if ns else ""
-    s.theorems = [prefix + m.group(1) for m in re.finditer(r"^theorem\s+(\S+)", text, flags=re.M)]
+    s.theorems = theorems_of(text)
     modules = [props_module]
     for mod, rel in extra_props:
         modules.append(mod)
         with open(os.path.join(LEAN_DIR, rel), encoding="utf-8") as f:
             t2 = strip_lean_comments(f.read())
-        ns2 = re.search(r"^namespace\s+(\S+)", t2, flags=re.M)
-        pre2 = (ns2.group(1) + ".") if ns2 else ""
-        s.theorems += [pre2 + m.group(1) for m in re.finditer(r"^theorem\s+(\S+)", t2, flags=re.M)]
+        s.theorems += theorems_of(t2)
     rc, out = run(["lake", "build"] + modules + ["driver"], cwd=LEAN_DIR, timeout=3600)
     s.build_log = out
     if rc != 0:
